@@ -407,3 +407,49 @@ func TestC20_P_HandmadeFileOrder(t *testing.T) {
 		ev.Sample(map[string]any{"file": fc.Desc, "op": opName})
 	})
 }
+
+// A single node with more than 1024 links whose children are dag-pb leaves (reference importer, protobuf leaves, Maxlinks 1100):
+// the request order of a full read and of a preload is still the link order.
+func TestC20_R_VeryWideNode(t *testing.T) {
+	for _, n := range []int{1023, 1024, 1025, 1100} {
+		data := lcgBytes(n, 5, 0)
+		st := NewStore()
+		root, _, err := refImportFile(st, data, refFileOpts{Chunker: "size-1", Width: 1100, RawLeaves: false, CidV1: true})
+		if err != nil {
+			t.Fatal(err)
+		}
+		tree, err := st.FileTree(root, 0)
+		if err != nil {
+			t.Fatal(err)
+		}
+		want := tree.PreOrder()[1:]
+		ls := st.LinkSystem()
+		for _, opName := range []string{"AsBytes", "unixfs-preload"} {
+			got, err := c20Run(st, root, func(pn datamodel.Node) error {
+				if opName == "unixfs-preload" {
+					_, err := ls.KnownReifiers["unixfs-preload"](lc0, pn, ls)
+					return err
+				}
+				rn, err := ls.KnownReifiers["unixfs"](lc0, pn, ls)
+				if err != nil {
+					return err
+				}
+				b, err := rn.AsBytes()
+				if err == nil && string(b) != string(data) {
+					return fmt.Errorf("bytes differ")
+				}
+				return err
+			})
+			if err != nil {
+				t.Fatalf("C20 very wide node n=%d %s: %v", n, opName, err)
+			}
+			if fmt.Sprint(got) != fmt.Sprint(want) {
+				first := 0
+				for first < len(got) && first < len(want) && got[first] == want[first] {
+					first++
+				}
+				t.Fatalf("C20 very wide node (%d links) %s: request order differs from link order at position %d of %d", n, opName, first, len(want))
+			}
+		}
+	}
+}
